@@ -1829,22 +1829,24 @@ class slate_BradleyTerry(BallotGenerator):
             for j1 in np.random.choice(len(seed_ballot_type) - 1, size=num_ballots)
         ]
 
-        odds = (1 - cohesion) / cohesion
         # generate MCMC sample
         for i in range(num_ballots):
             # choose adjacent pair to propose a swap
             j1, j2 = swap_indices[i]
 
-            # if swap reduces number of voters bloc above opposing bloc
-            if (
-                current_ranking[j1] != current_ranking[j2]
-                and current_ranking[j1] == bloc
-            ):
-                acceptance_prob = odds
-
-            # if swap increases number of voters bloc above opposing or swaps two of same bloc
-            else:
+            # Metropolis acceptance min(1, target(after) / target(before)); the ratio is
+            # (1 - cohesion) / cohesion when the swap moves the voter's bloc below the
+            # opposing bloc and its inverse when it moves the voter's bloc up
+            if current_ranking[j1] == current_ranking[j2]:
                 acceptance_prob = 1
+            elif current_ranking[j1] == bloc:
+                acceptance_prob = (
+                    min(1, (1 - cohesion) / cohesion) if cohesion > 0 else 1
+                )
+            else:
+                acceptance_prob = (
+                    min(1, cohesion / (1 - cohesion)) if cohesion < 1 else 1
+                )
 
             # if you accept, make the swap
             if random.random() < acceptance_prob:
